@@ -894,6 +894,29 @@ def check_status(ck, s, tainted):
               "xzgrep: with res=%d from the earlier files and r=%d for this file the script sets res=%d, the documented result is "
               "%d (a decompression/grep error must never be masked by matches in other files)" % wit,
               key="STATUS:xzgrep:res-accumulator")
+        # a failed decompressor makes this file's status an error whatever grep said about the part it saw
+        dec = None
+        for c, ctx in s.cmds:
+            if c["t"] != "if":
+                continue
+            for cond, body in c["clauses"]:
+                cw = [x for x, _ in sh.walk_commands(cond) if x["t"] == "simple"]
+                if cw and [w.text() for w in cw[0]["words"]] == ["test", '"$xz_status"', "-gt", "0"]:
+                    dec = (c, body)
+        if dec is None:
+            raise AnalysisBroken("xzgrep: the clause handling a failed decompressor (`test \"$xz_status\" -gt 0`) was not found")
+        witd = None
+        for r0 in range(4):
+            env = {"r": r0, "xz_status": 1, "res": 1}
+            _run_list(dec[1], env)
+            if env["r"] < 2 and witd is None:
+                witd = (r0, env["r"])
+        n += 1
+        ck.ob("C20-STATUS", "xzgrep:decomp-failure", witd is None, s.where(dec[0]["line"]),
+              "xzgrep: after a failed decompressor the file's status r is >= 2 for every grep status 0..3" if witd is None else
+              "xzgrep: when the decompressor failed and grep returned %d the file's status stays %d: an undecodable file is "
+              "reported as %s instead of status 2" % (witd[0], witd[1], "a match" if witd[1] == 0 else "no match"),
+              key="STATUS:xzgrep:decomp-failure")
         ex_ = [c for c, _ in s.cmds if c["t"] == "simple" and c["words"] and c["words"][0].plain() == "exit"]
         last = s.ast["items"][-1]["items"][0][1]["cmds"][0]
         okx = last["t"] == "simple" and [w.text() for w in last["words"]] == ["exit", '"$res"']
